@@ -1,0 +1,22 @@
+//go:build verif
+
+package parser
+
+import "github.com/xjslang/xjs/token"
+
+// Read-only accessors for the verification harness (/verif). They exist only
+// when the module is built with -tags verif.
+
+// VerifBuiltinPrecedences returns a copy of the package-level binding-power table.
+func VerifBuiltinPrecedences() map[token.Type]int {
+	out := make(map[token.Type]int, len(precedences))
+	for k, v := range precedences {
+		out[k] = v
+	}
+	return out
+}
+
+// VerifContextDepth returns the depth of the parsing-context stack.
+func (p *Parser) VerifContextDepth() int {
+	return len(p.contextStack)
+}
